@@ -315,6 +315,7 @@ class LintFix:
             return set()
         elif (
             self.edit_type == "replace"
+            and self.edit
             and all(edit.is_type("raw") for edit in cast(list[RawSegment], self.edit))
             and all(edit._source_fixes for edit in cast(list[RawSegment], self.edit))
         ):
